@@ -349,6 +349,11 @@ CLAIMS["C17"] = dict(
     technique="abstract interpretation (origin analysis) proved sound in Coq + programs regenerated from source by a fail-closed ast translator and checked by vm_compute + model-free byte-comparison oracle at run time",
     design_ref="DESIGN.md 4/C17")
 
+SCALE_NOTE = (" Beyond the small-scope cases compared inside Coq, the generator also runs SCALE streams (long / lopsided / wide inputs, "
+              "inputs above 65 536 cells, extreme and decimal magnitudes) and hands the same content over in other FORMS (dtype, memory layout, "
+              "container type; harness/forms.py); cases whose literals would be too large for vm_compute are judged by the model-free oracle only and "
+              "are counted separately in the evidence. The theorems do not depend on size or form.")
+
 NOT_YET = "check not built yet in this revision (planned: see DESIGN.md section 4)"
 
 
@@ -367,7 +372,7 @@ def main():
             "replay_cmd_template": "./check %s --replay {path}" % p,
             "engine": "coq-model+correspondence",
             "level_claimed": {"category": c["category"], "text": c["text"], "design_ref": c["design_ref"]},
-            "level_note": c["note"],
+            "level_note": c["note"] + SCALE_NOTE,
             "technique": c["technique"],
         })
     m = {
